@@ -88,7 +88,7 @@ func ruleWriterDiscipline(c *eng.Ctx) {
 								if cf.Pkg == nil && cf.Synthetic != "" {
 									// a method-expression thunk: judged by what it forwards to
 									for _, inner := range eng.Calls(cf, false, func(string, ssa.CallInstruction) bool { return true }) {
-										if t := inner.Common().StaticCallee(); t != nil {
+										if t := eng.StaticCallee(inner); t != nil {
 											cf = t
 										}
 									}
@@ -322,7 +322,7 @@ func ruleCollectionFilter(c *eng.Ctx) {
 		}
 		deleg := false
 		for _, r := range eng.Returns(f) {
-			if call, ok := r.Results[0].(*ssa.Call); ok && call.Call.StaticCallee() == fn {
+			if call, ok := r.Results[0].(*ssa.Call); ok && eng.StaticCallee(call) == fn {
 				deleg = true
 			}
 		}
